@@ -23,6 +23,50 @@ ENUMI64 = "iana::EnumI64"
 WPR = "iana::WithPrivateRange"
 
 
+def _table_lookup(prog, f, t, enum):
+    """`TABLE.iter().copied().find(|v| *v as i64 == i)` (with or without copied / cloned, before or after the find): the list of
+    variants searched, or None if the term is not that lookup.  With distinct discriminants (R-1) the result for an integer is
+    the variant of the list that has it, if any - the order of the list and repeated entries do not matter."""
+    from lib.prov import strip_sites, resolve_consts
+    t = strip_sites(t)
+    while is_call(t) and t[1] in ("core::option::Option::<&T>::copied", "core::option::Option::<&T>::cloned") and len(t[2]) == 1:
+        t = t[2][0]
+    if not (is_call(t, "core::iter::traits::iterator::Iterator::find") and len(t[2]) == 2):
+        return None
+    it, clo = t[2]
+    while it[0] in ("ref", "deref"):
+        it = it[1]
+    while is_call(it) and it[1] in ("core::iter::traits::iterator::Iterator::copied", "core::iter::traits::iterator::Iterator::cloned"):
+        it = it[2][0]
+    if not (is_call(it) and it[1] in ("core::slice::<impl [T]>::iter", "core::iter::traits::collect::IntoIterator::into_iter")):
+        return None
+    src = resolve_consts(prog, it[2][0])
+    for _ in range(4):
+        if src[0] in ("ref", "deref"):
+            src = src[1]
+        elif src[0] == "cast" and src[1] == "PointerCoercion":
+            src = resolve_consts(prog, src[2])
+        else:
+            break
+    if src[0] != "array" or not all(e[0] == "aggr" and e[1] == enum and not e[3] for e in src[1]):
+        return None
+    if clo[0] != "closure" or len(clo[2]) != 1 or strip_sites(clo[2][0]) not in (("ref", ("param", 0), False), ("param", 0)):
+        return None
+    body = strip_sites(Prov(prog.fn(clo[1])).return_term())
+    if not (body[0] == "binop" and body[1] == "Eq"):
+        return None
+
+    def peel(x):
+        while x[0] in ("deref", "ref"):
+            x = x[1]
+        return x
+    for a, b in ((body[2], body[3]), (body[3], body[2])):
+        if a[0] == "cast" and a[1] == "IntToInt" and a[3] == "i64" and a[2][0] == "discr" and peel(a[2][1]) == ("param", 1) \
+                and peel(b)[0] == "field" and peel(b)[2] == "0" and peel(peel(b)[1]) == ("param", 0):
+            return [e[2] for e in src[1]]
+    return None
+
+
 def check_tables(ctx, only=None):
     """R-1 / R-2 for all registries, or for the ones named in `only` (re-used by C08 / C10 / C18 for the registries whose
     values decide what they accept: a wrong integer for a key type changes which keys are COSE_Keys)"""
@@ -80,10 +124,19 @@ def check_tables(ctx, only=None):
         arms = {}
         none_seen = False
         bad = []
+        lookups = {}        # block of a table lookup -> the variants it searches
         for o in outcomes(f, pv):
             t = o["term"]
             if t[0] == "aggr" and t[1] == "core::option::Option" and t[2] == "None":
                 none_seen = True
+                continue
+            tl = _table_lookup(prog, f, t, enum)
+            if tl is not None:
+                # table-driven: every variant is in the table, found by its own discriminant
+                lookups[o["bb"]] = tl
+                none_seen = True            # `find` answers None when nothing matches
+                for var in tl:
+                    arms[var] = ds.get(var)
                 continue
             if t[0] == "aggr" and t[1] == "core::option::Option" and t[2] == "Some" and t[3][0][1][0] == "aggr" \
                     and t[3][0][1][1] == enum:
@@ -119,11 +172,13 @@ def check_tables(ctx, only=None):
             none_bbs = set()
             for o in outs_:
                 t = o["term"]
+                if o["bb"] in lookups:
+                    continue
                 if t[2] == "None":
                     none_bbs.add(o["bb"])
                 else:
                     some_bb[t[3][0][1][2]] = o["bb"]
-            sinks = set(some_bb.values()) | none_bbs
+            sinks = set(some_bb.values()) | none_bbs | set(lookups)
             by_val = {v: k for k, v in ds.items()}
             pts = set(break_points(set(ds.values()) | {-65536, 65535, 65536, 2 ** 31, -2 ** 31, 2 ** 32, -2 ** 32, 2 ** 15, -2 ** 15, 255, 256}))
             pts |= {v + m for v in ds.values() for m in (2 ** 16, -2 ** 16, 2 ** 32, -2 ** 32) if -2 ** 63 <= v + m < 2 ** 63}
@@ -133,15 +188,22 @@ def check_tables(ctx, only=None):
                     undec = True
                     bad.append("from_i64(%d) could not be evaluated" % x)
                     break
-                want_bb = some_bb[by_val[x]] if x in by_val else None
+                want_bb = some_bb.get(by_val[x]) if x in by_val else None
                 got = next(iter(reached))
-                if want_bb is None and got not in none_bbs:
-                    bad.append("from_i64(%d) is %s, no variant has that value" % (x, [k for k, b in some_bb.items() if b == got]))
-                elif want_bb is not None and got != want_bb:
+                if got in lookups:
+                    # the lookup finds the variant that has this integer, if the table lists it
+                    if x in by_val and by_val[x] not in lookups[got]:
+                        bad.append("from_i64(%d) searches a table that does not list %s" % (x, by_val[x]))
+                    continue
+                if x not in by_val:
+                    if got not in none_bbs:
+                        bad.append("from_i64(%d) is %s, no variant has that value" % (x, [k for k, b in some_bb.items() if b == got]))
+                elif got != want_bb:
                     bad.append("from_i64(%d) does not arrive at %s (%s)" % (x, by_val[x], "None" if got in none_bbs else [k for k, b in some_bb.items() if b == got]))
             ctx.count("from_i64_points_evaluated", len(pts))
         ctx.ob("R-2", "from_i64:%s" % enum, not bad,
-               "%s::from_i64 has exactly one arm `i == discriminant(V) => Some(V)` per variant (%d) and default None" % (enum, len(ds)),
+               "%s::from_i64 %s per variant (%d) and default None; evaluated on every discriminant and its neighbourhood" % (
+                   enum, "searches a table that lists every variant by `v as i64 == i`" if lookups else "has exactly one arm `i == discriminant(V) => Some(V)`", len(ds)),
                where=f.span, detail={"problems": bad[:6]}, kind="cannot-decide" if undec else None,
                sample={"enum": enum, "arms": dict(list(arms.items())[:4])} if enum == "iana::KeyType" else None)
         g = prog.fn(tkey)
@@ -376,3 +438,4 @@ def _classify(ctx, key, private):
            where=f.span, detail={"seen": {k: v for k, v in seen.items()}, "problems": problems},
            sample={"fn": key, "seen": {k: v for k, v in seen.items()}})
 META["decides"] += ' R-2 also evaluates every from_i64 on each discriminant and on the integers around them and around the 16/32-bit edges: each arrives at its own arm, everything else at None (an early return or a narrowing before the comparison is seen). R-1 also checks names added after the pinned version against a supplementary table of IANA assignments (spec/iana.py NOT_IN_CRATE).'
+META["decides"] += ' The table-driven form `TABLE.iter().copied().find(|v| *v as i64 == i)` over a const slice that lists every variant is decided too (the driver dumps the promoted array of a const item).'
